@@ -253,7 +253,7 @@ def run_driver(run, binp, scns, name, testname="TestScenarios", extra_env=None):
     traces = []
     for p, tr, lf in procs:
         try:
-            rc = p.wait(timeout=3000)
+            rc = p.wait(timeout=int(os.environ.get("VERIF_DRIVER_TIMEOUT", "1500")))
         except subprocess.TimeoutExpired:
             p.kill()
             raise Inconclusive("session driver timeout")
